@@ -239,6 +239,7 @@ def analyse_result_arm(body, env, which, label):
         # ok pass-through: abstract interpretation of a "response term"
         return passthrough_ok(stmts, tail, env, label, nf)
     # ------------- handler forms
+    expr_env = {}
     if len(calls_total) != 1:
         raise G.Unrecognised(f"{label}: {len(calls_total)} handler calls")
     for s in stmts:
@@ -285,6 +286,10 @@ def analyse_result_arm(body, env, which, label):
             env[p["name"]] = ("data", tuple(sorted(cls.items())))
             nf["data"] = cls
             continue
+        # a let-bound context / contract: remembered and inlined at the call
+        if p["k"] == "ident" and (A.unconv(init)[0] or init["k"] == "tuple" or E.ctor_call(init) is not None):
+            expr_env[p["name"]] = init
+            continue
         raise G.Unrecognised(f"{label}: unrecognised let before the handler call (expanded line {s['ln']})")
     call = calls_total[0]
     if A.strip_expr(tail) is not call:
@@ -294,8 +299,8 @@ def analyse_result_arm(body, env, which, label):
     nf["ctor"] = E.ctor_call(call["recv"])
     if not call["args"]:
         raise G.Unrecognised(f"{label}: handler called without context")
-    conv, ce = A.unconv(call["args"][0])
-    ce = A.strip_expr(ce)
+    conv, ce = A.unconv(A.resolve(call["args"][0], expr_env))
+    ce = A.resolve(ce, expr_env)
     if not conv or ce["k"] != "tuple":
         raise G.Unrecognised(f"{label}: context is not conv(tuple)")
     nf["ctx"] = [env.prov(x) for x in ce["elems"]]
